@@ -10,6 +10,7 @@
 package reg
 
 import (
+	"reflect"
 	"bytes"
 	"fmt"
 	"time"
@@ -37,6 +38,7 @@ var cSpareCap = simrt.RegisterCounter("probe_proprietary_payload_with_spare_capa
 var cOwnerWrite = simrt.RegisterCounter("fault_caller_modifies_decoded_commands_it_was_handed")
 
 var (
+	cTypedNil = simrt.RegisterCounter("decoded_command_carries_a_typed_nil_payload_pointer")
 	evReg    = sim.RegisterEv(200, "register")
 	evGet    = sim.RegisterEv(201, "get")
 	evDecode = sim.RegisterEv(202, "decode")
@@ -365,12 +367,16 @@ func recordDecoded(up bool, pls []lorawan.Payload) []decCmd {
 		// "encoding either returns an error or produces bytes": what a decoder
 		// handed out is a value of the library's own types and goes through the
 		// encoder like any other (a crash is neither an error nor bytes)
-		sim.Guard("r5.decoded-value-crashes-encoder", func() { mc.MarshalBinary() })
-		if pp, ok := mc.Payload.(*lorawan.ProprietaryMACCommandPayload); ok && pp == nil {
-			// (a typed nil pointer in the interface: no payload)
-			out = append(out, dc)
-			continue
+		if mc.Payload != nil {
+			if rv := reflect.ValueOf(mc.Payload); rv.Kind() == reflect.Ptr && rv.IsNil() {
+				// a typed nil pointer in the interface: no payload value (what an
+				// encoder does with a wrapper around nothing is not in the statement)
+				simrt.Count(cTypedNil)
+				out = append(out, dc)
+				continue
+			}
 		}
+		sim.Guard("r5.decoded-value-crashes-encoder", func() { mc.MarshalBinary() })
 		if mc.Payload != nil {
 			dc.hasPl = true
 			if pp, ok := mc.Payload.(*lorawan.ProprietaryMACCommandPayload); ok {
